@@ -40,6 +40,8 @@ GEN = ["Debiasers", "IsimipVars",  # IsimipVars: which variables run with the ad
 TARGETS += ["IbicusModel.Lemmas.GenDebWin"]  # tier A of the per-window transfer functions (CDFt, ECDFM, QDM, QM, SDM absolute): the audit imports it
 GEN += ["DebWin"]  # Gen.DebWin: dataflow programs extracted by translator/extract_debiasers.py
 TARGETS += ["IbicusModel.Lemmas.GenDebWinSdm"]  # SDM relative denotes Model.Debiasers.sdmRelative; CDFt steps with one draw list
+TARGETS += ["IbicusModel.Props.Capstone"]  # capstone: C02 stated on the composition of the regenerated pieces (loop spec ∘ per-window program ∘ grid map); the audit imports it
+GEN += ["Loops", "GridLoops", "DebWin", "Debiasers", "IsimipStep6"]  # the groups the capstone composes (lean_phase regenerates every transitively imported group anyway)
 
 SHIFTS = [0.5, -0.5, 3.0, -3.0, 1e3, -1e3]
 FACTORS = [0.5, 2.0, 10.0, 250.0, 1.0 / 400.0]  # the extreme factors expose a clipped change factor (seeded C02-1)
